@@ -277,6 +277,8 @@ func gen(r *vh.Rand, tier string) []string {
 	for _, h := range otherHeaders {
 		out = append(out, "cfghdr "+vh.HexS(h))
 	}
+	out = append(out, cfghdrsBoundary()...)
+	out = append(out, wfileBoundary()...)
 	out = append(out, tfuncCases()...)
 	out = append(out, noSourceCases()...)
 	formats := []string{"uri", "uripost", "raw", "json"}
@@ -322,6 +324,30 @@ func gen(r *vh.Rand, tier string) []string {
 				c = "hostile " + c
 			}
 			out = append(out, c)
+		}
+		{ // a request list through a description file of every format (HCL only when the texts can be HCL literals)
+			k := r.Range(1, 5)
+			var sh []string
+			ext := r.Pick(scenarioExts)
+			ok := true
+			for j := 0; j < k; j++ {
+				s := genShoot(r)
+				ok = ok && !bigNumber([]byte(s)) && (strings.ToLower(ext) != "hcl" || hclSafe(s))
+				sh = append(sh, vh.HexS(s))
+			}
+			if ok {
+				out = append(out, fmt.Sprintf("cfile %s %s %s", ext, r.Pick([]string{"http", "grpc"}), strings.Join(sh, " ")))
+			}
+		}
+		out = append(out, cfghdrsRandom(r), cfghdrsRandom(r))
+		out = append(out, strings.TrimRight(fmt.Sprintf("wfile %s %s %s", r.Pick(scenarioExts), r.Pick([]string{"http", "grpc"}), strings.Join(genWeights(r), " ")), " "))
+		{ // a mutated description of every format through the real provider constructor (fuzzed only)
+			ext := r.Pick([]string{"hcl", "hcl", "yaml", "yml"})
+			kind := r.Pick([]string{"http", "grpc"})
+			m := mutate(r, sfileBase(ext, kind))
+			if !bigNumber(m) {
+				out = append(out, fmt.Sprintf("sfile %s %s %s", ext, kind, vh.Hex(m)))
+			}
 		}
 		{
 			k := r.Range(0, 4)
